@@ -400,7 +400,7 @@ func runC12case(t *vf.T, c c12case) {
 					mu.Lock()
 					killed = true
 					mu.Unlock()
-					if ls.Sys.Kill(nil) {
+					if ls.killRunning() {
 						mu.Lock()
 						nkilled++
 						mu.Unlock()
